@@ -12,3 +12,10 @@ func setSimClock(t int64, onRead func(site string)) {}
 func setStmtHook(f func(site string)) {}
 
 func setSimTimers(on bool, early bool, onStart func(site string)) {}
+
+type helperUse struct {
+	File string `json:"file"`
+	Lint string `json:"lint"`
+}
+
+func helperIndex() map[string][]helperUse { return nil }
